@@ -68,8 +68,10 @@ def run_case(case):
                         res.fail("C18/show_pa_level-rejected", "show_pa_level=%r rejected with a %s byte name" % (
                             op[1], None if name is None else len(name)))
             elif k == "pa_level":
-                b.pa_level = op[1]
-                pa = op[1]
+                # an int, or the documented (level, LNA enable) list / tuple form: the advertised value is the level
+                v = op[1]
+                b.pa_level = v if isinstance(v, int) else (tuple(v["t"]) if isinstance(v, dict) else list(v))
+                pa = v if isinstance(v, int) else (v["t"][0] if isinstance(v, dict) else v[0])
             elif k == "hop":
                 b.hop_channel()
                 if chip.reg[5] not in ble.RF_CH_TO_BLE:
@@ -224,7 +226,8 @@ def _strategy():
                 ops.append(["show_pa", v])
                 show = bool(v)
             elif k == "pa_level":
-                ops.append(["pa_level", draw(st.sampled_from([-18, -12, -6, 0]))])
+                lv = draw(st.sampled_from([-18, -12, -6, 0]))
+                ops.append(["pa_level", draw(st.sampled_from([lv, lv, [lv, False], [lv, True], {"t": [lv, False]}]))])
             elif k == "hop":
                 ops.append(["hop"])
             elif k == "channel":
